@@ -431,7 +431,19 @@ def name_return(header, name, log):
     n = len(toks)
     while i < n and not (toks[i][0] == 'id' and toks[i][1] == 'fn'):
         i += 1
-    j = i
+    j = nontrivia(toks, i)      # fn name
+    j = nontrivia(toks, j)
+    if j < n and toks[j][1] == '<':
+        depth = 0
+        while j < n:
+            if toks[j][0] == 'p' and toks[j][1] == '<':
+                depth += 1
+            elif toks[j][0] == 'p' and toks[j][1] == '>':
+                depth -= 1
+                if depth == 0:
+                    break
+            j += 1
+        j = nontrivia(toks, j)
     while j < n and toks[j][1] != '(':
         j += 1
     pc = match_close(toks, j)
